@@ -1,7 +1,7 @@
 (* C08 - Windows join and push follow the documented joining rules. *)
 From Coq Require Import List NArith Bool.
 Import ListNotations.
-From TP Require Import Core Path Unix Win Spec C08Proofs GenJoin WinSimple WinExtend WinBare WinVerbJoin.
+From TP Require Import Core Path Unix Win Spec C08Proofs GenJoin WinSimple WinExtend WinBare WinVerbJoin WinHist WinVerbMore WinVerbBare.
 
 (* The rule table is Spec.join_spec (written over the grammar specification wspec only):
      b empty                      -> a
@@ -149,9 +149,43 @@ Lemma C08_verbatim_named_unc_refuted :
   wprefix_grammar [92;92;63;92;85;78;67;92] = Some (Verbatim [85;78;67], [92]) /\
   wprefix_grammar ([92;92;63;92;85;78;67] ++ [92;120]) = Some (VerbatimUNC [120] [], []).
 Proof. exact grammar_repl_verbatim_unc_refuted. Qed.
-(* C08_comps_partial: what is left unproved at the level of components: a verbatim prefix with nothing after it
-   or followed by a name without a root (\\?\C:name), and the verbatim prefix named "UNC"; decided on every
-   explored pair through the C10 oracle. *)
+(* ... and over every HISTORY of pushes (extend, FromIterator): each relative, prefix-free, non-empty path pushed
+   appends what it adds, whatever was pushed before; the prefix is read the same way after every step (WinHist.v) *)
+Theorem C08_history_comps_prefixed : forall (a : list N) (k : wprefix) (r : list N) (bs : list (list N)),
+  wprefix_grammar a = Some (k, r) -> k_verbatim k = false -> r <> [] -> Forall rel_plain bs ->
+  wspec (fold_left w_push bs a) = wspec a ++ flat_map (fun b => map WC (gadded (wsep true) b)) bs.
+Proof. exact wspec_push_history_prefixed. Qed.
+Theorem C08_history_comps_plain : forall (bs : list (list N)) (a : list N),
+  noprefix a = true -> a <> [] -> Forall rel_plain bs ->
+  noprefix (fold_left w_push bs a) = true /\
+  wspec (fold_left w_push bs a) = wspec a ++ flat_map (fun b => map WC (gadded (wsep true) b)) bs.
+Proof. exact wspec_push_history_plain. Qed.
+Theorem C08_history_comps_verbatim : forall (a : list N) (k : wprefix) (r : list N) (bs : list (list N)),
+  wprefix_grammar a = Some (k, r) -> k_verbatim k = true -> k <> Verbatim [85; 78; 67] ->
+  sep_headed (s_wsep (s_norm a)) r -> Forall (fun b => noprefix b = true /\ b <> []) bs ->
+  wspec (fold_left w_push bs a) = fold_left (fun acc b => fold_left vstep (wspec b) acc) bs (wspec a).
+Proof. exact wspec_push_history_verbatim. Qed.
+Print Assumptions C08_history_comps_verbatim.
+Print Assumptions C08_history_comps_prefixed.
+Print Assumptions C08_history_comps_plain.
+(* ... a the BARE verbatim prefix (\\?\C:, \\?\name, \\?\UNC\server\share, nothing after it; WinVerbBare.v): read the
+   same way when a separator and anything else follows; a relative b made of names is written after a '\', and
+   read again the result is the prefix, the root such a prefix implies, and b's components *)
+Theorem C08_bare_verbatim_prefix_stable : forall (l : list N) (k : wprefix),
+  wprefix_grammar l = Some (k, []) -> k_verbatim k = true -> vcomplete k ->
+  (4 <= length l)%nat /\
+  forall r', fitsv (s_wsep (s_norm l)) k r' -> wprefix_grammar (l ++ r') = Some (k, r') /\ s_norm (l ++ r') = s_norm l.
+Proof. exact grammar_bare_verbatim. Qed.
+Theorem C08_comps_bare_verbatim : forall (a : list N) (k : wprefix) (b : list N),
+  wprefix_grammar a = Some (k, []) -> k_verbatim k = true -> vcomplete k ->
+  noprefix b = true -> b <> [] -> Forall (fun c => exists n, c = Normal n) (gcomps (wsep true) b) ->
+  wspec (w_push a b) = wspec a ++ WC Root :: wspec b.
+Proof. exact wspec_join_bare_verbatim. Qed.
+Print Assumptions C08_bare_verbatim_prefix_stable.
+Print Assumptions C08_comps_bare_verbatim.
+(* C08_comps_partial: what is left unproved at the level of components: a bare verbatim prefix joined with a b
+   that holds "." / ".." or a root, a verbatim drive followed by a name without a root (\\?\C:name), and the
+   verbatim prefix named "UNC" (D17); decided on every explored pair through the C10 oracle. *)
 Example C08_prefixed_example :
   wspec (w_push [92;92;115;92;104;92;100] [120;47;121]) =
   wspec [92;92;115;92;104;92;100] ++ [WC (Normal [120]); WC (Normal [121])]           (* \\s\h\d + x/y *)
